@@ -117,18 +117,30 @@ def tsan_reports(stderr):
     return reps
 
 
+def _txt(x):
+    return x.decode('latin-1') if isinstance(x, bytes) else (x or '')
+
+
 def run_tsan(texe, st, nth, reps, bodies, timeout=900):
-    p = subprocess.run([texe] + st + ['--free', str(nth), str(reps), '+'.join(bodies)], env=dict(os.environ, **TSAN_ENV), stdout=subprocess.PIPE, stderr=subprocess.PIPE, text=True, timeout=timeout)
+    """returns (rc, info, stdout, stderr); rc=None when the pass had to be killed at `timeout` (partial stderr is still parsed)"""
+    try:
+        p = subprocess.run([texe] + st + ['--free', str(nth), str(reps), '+'.join(bodies)], env=dict(os.environ, **TSAN_ENV), stdout=subprocess.PIPE, stderr=subprocess.PIPE, text=True, timeout=timeout)
+        rc, out, err = p.returncode, p.stdout, p.stderr
+    except subprocess.TimeoutExpired as e:
+        rc, out, err = None, _txt(e.stdout), _txt(e.stderr)
     info = {}
-    for l in p.stdout.splitlines():
+    for l in out.splitlines():
         if l.startswith('free '):
             info = {k: int(v) for k, v in (x.split('=') for x in l.split()[1:])}
-    return p.returncode, info, p.stdout, p.stderr
+    return rc, info, out, err
 
 
 def run_valgrind(exe, st, body, timeout=900):
-    p = subprocess.run(['valgrind', '-q', '--error-exitcode=9', '--track-origins=no', exe] + st + ['--solo-raw', body], stdout=subprocess.PIPE, stderr=subprocess.PIPE, text=True, timeout=timeout)
-    return p.returncode, p.stdout.strip(), p.stderr
+    try:
+        p = subprocess.run(['valgrind', '-q', '--error-exitcode=9', '--track-origins=no', exe] + st + ['--solo-raw', body], stdout=subprocess.PIPE, stderr=subprocess.PIPE, text=True, timeout=timeout)
+        return p.returncode, p.stdout.strip(), p.stderr
+    except subprocess.TimeoutExpired as e:
+        return None, _txt(e.stdout), _txt(e.stderr)
 
 
 # ------------------------------------------------------------------------------------------------ main
@@ -154,35 +166,44 @@ def plan_jobs(tier):
             jobs.append(Job(b, 3, 0, 1, chunk=24))
         for b in triples:
             jobs.append(Job(b, 1, 0, 3))
-        for b in pairs:
+        g1f_pairs = [[k, k] for k in CORE] + [['ENCA', 'DECB'], ['ENCB', 'VFA'], ['DECA', 'VFB'], ['DECF', 'VFF'], ['ENCA', 'ENCB']]
+        for b in g1f_pairs:
             jobs.append(Job(b, 2, 0, 2, chunk=2))
         for b in triples[:3]:
             jobs.append(Job(b, 3, 2, 1, chunk=12))
+    jobs.sort(key=lambda j: (-(j.gran * 10 + (0 if j.K else 5)), 0))
+    only = os.environ.get('C18_ONLY')      # debugging aid: regular expression selecting systems by name (evidence then says exhaustive:false)
+    if only:
+        jobs = [j for j in jobs if re.search(only, j.name())]
     return jobs
 
 
 def run(tier):
     chk = vlib.Check(PID, tier, 'model_checking')
     t0 = time.time()
-    deadline = t0 + (165 if tier == 'quick' else 22 * 60)
+    deadline = t0 + float(os.environ.get('C18_DEADLINE_S') or (150 if tier == 'quick' else 22 * 60))   # C18_DEADLINE_S: override for measurements on an overloaded machine
     vlib.build('plain', 'tsan')
     exe = vlib.harness('plain', 'c18_sched')
     texe = vlib.harness('tsan', 'c18_sched', extra='-DC18_TSAN', wrap=False)
     st = streams(exe)
     fixed = st + ['deadline=%d' % int(deadline)]
+    side_budget = (deadline - time.time()) + (22 if tier == 'quick' else 150)     # TSan / valgrind side passes are killed after this many seconds
     cov = chk.cov
     mach = []          # machinery errors: exit 2
 
     # ---------------- TSan pass and valgrind run in the background while the scheduler explores
-    bg = cf.ThreadPoolExecutor(max_workers=6)
-    reps = 30 if tier == 'quick' else 60
-    tsan_cfgs = [(16, reps, ALL_BODIES), (8, reps, ['ENCA']), (8, reps, ['DECF', 'VFF', 'DECA', 'VFA']), (12, reps, ['ENCB', 'ENCD', 'DECB', 'DECH', 'VFB', 'VFC'])]
+    bg = cf.ThreadPoolExecutor(max_workers=8)
+    # (threads, repetitions per process, bodies, processes): every process start is a cold library (lazily built tables!)
+    reps = 10 if tier == 'quick' else 15
+    procs = 3 if tier == 'quick' else 5
+    tsan_base = [(16, reps, ALL_BODIES, procs), (8, reps, ['ENCA'], procs), (8, reps, ['DECF', 'VFF', 'DECA', 'VFA'], procs), (12, reps, ['ENCB', 'ENCD', 'DECB', 'DECH', 'VFB', 'VFC'], procs)]
     if tier == 'thorough':
-        tsan_cfgs += [(16, reps, ['ENCA', 'ENCC', 'DECB', 'VFB']), (2, 200, ['ENCA', 'DECB']), (3, 200, ['VFA', 'DECA', 'ENCB'])]
-    tsan_futs = [bg.submit(run_tsan, texe, st, n, r, b) for n, r, b in tsan_cfgs]
+        tsan_base += [(16, reps, ['ENCA', 'ENCC', 'DECB', 'VFB'], procs), (2, 40, ['ENCA', 'DECB'], procs), (2, 40, ['DECA', 'DECA'], procs), (3, 40, ['VFA', 'DECA', 'ENCB'], procs)]
+    tsan_cfgs = [(n, r, b) for n, r, b, k in tsan_base for _ in range(k)]
+    tsan_futs = [bg.submit(run_tsan, texe, st, n, r, b, side_budget) for n, r, b in tsan_cfgs]
     self_fut = bg.submit(lambda: subprocess.run([texe, '--selfrace'], env=dict(os.environ, **TSAN_ENV), stdout=subprocess.PIPE, stderr=subprocess.PIPE, text=True, timeout=120))
     have_vg = subprocess.run('command -v valgrind', shell=True, stdout=subprocess.PIPE).returncode == 0
-    vg_futs = {b: bg.submit(run_valgrind, exe, st, b) for b in ALL_BODIES} if have_vg else {}
+    vg_futs = {b: bg.submit(run_valgrind, exe, st, b, side_budget) for b in ALL_BODIES} if have_vg else {}
 
     # ---------------- solo references + heap-fill reproducibility
     cases = [f'solo {b}' for b in ALL_BODIES] + [f'fill {b} {p}' for b in ALL_BODIES for p in FILLS]
@@ -255,14 +276,20 @@ def run(tier):
     # second-level bases: the free initial choice (which thread starts) — keeps the shards balanced
     do_plans([(j, f'0:{k}') for j in jobs if j.bases.get('-') for k in range(1, len(j.bodies))])
 
-    maxc = max(j.cmax for j in jobs)
-    for c in range(0, maxc + 1):
+    maxc = max([j.cmax for j in jobs] + [0])
+    heavy = lambda j: j.gran == 3 and j.K == 0          # full allocator-call granularity: by far the most schedules per bound
+    if tier == 'quick':
+        stages = [(c, lambda j: True) for c in range(0, maxc + 1)]
+    else:
+        # iterative bounding per system; the expensive full-g2 bound-1 stage comes after the cheap systems reached bound 2, bound 3 last
+        stages = [(0, lambda j: True), (1, lambda j: not heavy(j)), (2, lambda j: not heavy(j)), (1, heavy)] + [(c, lambda j: not heavy(j)) for c in range(3, maxc + 1)]
+    for c, sel in stages:
         if time.time() > deadline:
             cut_any = True
             break
         cs, meta = [], []
         for j in jobs:
-            if j.cmax < c or any(v is None for v in j.bases.values()) or not j.bases:
+            if not sel(j) or j.cmax < c or any(v is None for v in j.bases.values()) or not j.bases:
                 continue
             for base, info in j.bases.items():
                 lo = 1
@@ -281,9 +308,7 @@ def run(tier):
                 pb['by_preemptions'][0] += 1
                 pb['prefixes'] += info['nodes']
                 pb['steps'] += info['trans']
-        if not cs:
-            continue
-        rs = vlib.run_cases(exe, cs, fixed, tag='c18s')
+        rs = vlib.run_cases(exe, cs, fixed, tag='c18s') if cs else []
         for j, cline, r in zip(meta, cs, rs):
             r = r or 'NOOUTPUT'
             stt, d, viol = kv(r)
@@ -320,7 +345,7 @@ def run(tier):
                 vf = viol_fields(viol)
                 chk.violation(vf.get('key', 'sched'), f"{j.name()} preemptions={vf.get('preempts')} choices={vf.get('choices')}: {vf['text']}", {'kind': 'sched', 'bodies': j.btxt, 'gran': j.gran, 'K': j.K, 'choices': vf.get('choices', '-')})
         for j in jobs:
-            if c in j.per_bound and j.per_bound[c]['complete'] and j.complete_upto == c - 1:
+            if sel(j) and c in j.per_bound and j.per_bound[c]['complete'] and j.complete_upto == c - 1:
                 j.complete_upto = c
         if chk.violations:
             break      # iterative bounding: report at the smallest bound that fails
@@ -337,43 +362,50 @@ def run(tier):
     # ---------------- collect TSan / valgrind
     tsan_info = []
     tsan_reports_n = 0
+    tsan_killed = 0
     for (n, r, b), fut in zip(tsan_cfgs, tsan_futs):
         try:
-            rc, info, out, err = fut.result(timeout=max(60, deadline + 240 - time.time()))
+            rc, info, out, err = fut.result(timeout=side_budget + 60)
         except Exception as e:
             mach.append(f'tsan pass {n}x{r} {b}: {e!r}')
             continue
         cov['evaluations'] += info.get('runs', 0)
-        tsan_info.append({'threads': n, 'reps': r, 'bodies': b, 'runs': info.get('runs', 0), 'max_concurrent': info.get('maxactive', 0), 'rc': rc})
+        tsan_info.append({'threads': n, 'reps': r, 'bodies': '+'.join(b), 'runs': info.get('runs', 0), 'max_concurrent': info.get('maxactive', 0), 'rc': rc})
         reps_ = tsan_reports(err)
         tsan_reports_n += len(reps_)
+        rp_ = {'kind': 'tsan', 'threads': n, 'reps': r, 'bodies': b}
         for rp in reps_:
             g = f":{rp['global']}" if rp['global'] else ''
-            chk.violation(f"tsan:{rp['kind']}:{rp['frame']}{g}", f"ThreadSanitizer {rp['kind']} in {rp['frame']}:{rp['line']}{(' on global ' + rp['global']) if rp['global'] else ''} (free-running {n} threads, bodies {'+'.join(b)})\n{rp['text']}", {'kind': 'tsan', 'threads': n, 'reps': r, 'bodies': b})
-        if info.get('mismatches', 0) or info.get('fenv', 0):
-            chk.violation('free:digest' if info.get('mismatches', 0) else 'free:fenv', f"free-running threads ({n} x {r}, {'+'.join(b)}): {out.strip()[:400]}", {'kind': 'tsan', 'threads': n, 'reps': r, 'bodies': b})
+            chk.violation(f"tsan:{rp['kind']}:{rp['frame']}{g}", f"ThreadSanitizer {rp['kind']} in {rp['frame']}:{rp['line']}{(' on global ' + rp['global']) if rp['global'] else ''} (free-running {n} threads, bodies {'+'.join(b)})\n{rp['text']}", rp_)
+        if rc is None:
+            tsan_killed += 1      # killed at the side budget: overload or a hang; not judged by itself (reports printed before the kill are)
+            cut_any = True
+        elif info.get('mismatches', 0) or info.get('fenv', 0):
+            chk.violation('free:digest' if info.get('mismatches', 0) else 'free:fenv', f"free-running threads ({n} x {r}, {'+'.join(b)}): {out.strip()[:400]}", rp_)
         elif rc not in (0, 66) or not info:
-            chk.violation('free:crash', f"free-running threads ({n} x {r}, {'+'.join(b)}) died rc={rc}: {err[-600:]}", {'kind': 'tsan', 'threads': n, 'reps': r, 'bodies': b})
+            chk.violation('free:crash', f"free-running threads ({n} x {r}, {'+'.join(b)}) died rc={rc}: {err[-600:]}", rp_)
     sp = self_fut.result(timeout=300)
     tsan_self = (sp.returncode == 66 and 'g_racy' in sp.stderr)
-    cov['tsan'] = {'passes': tsan_info, 'reports': tsan_reports_n, 'engine_selftest_detects_seeded_harness_race': tsan_self}
+    cov['tsan'] = {'passes': tsan_info, 'reports': tsan_reports_n, 'passes_killed_at_budget': tsan_killed, 'engine_selftest_detects_seeded_harness_race': tsan_self}
     vg = {}
     for b, fut in vg_futs.items():
         try:
-            rc, out, err = fut.result(timeout=max(60, deadline + 240 - time.time()))
+            rc, out, err = fut.result(timeout=side_budget + 60)
         except Exception as e:
             mach.append(f'valgrind {b}: {e!r}')
             continue
         cov['evaluations'] += 1
         vg[b] = rc
+        if rc is None:
+            cut_any = True
         if rc == 9 or 'uninitialised' in err or 'Invalid' in err:
             m = re.search(r'(Conditional jump|Use of uninitialised|Uninitialised byte|Invalid \w+)[^\n]*\n==\d+==\s+(?:at|by) 0x[0-9A-F]+: (\S+)', err)
             fr = m.group(2) if m else '?'
             chk.violation(f'valgrind:{b}:{fr}', f'valgrind memcheck on solo body {b}: {err[:1500]}', {'kind': 'valgrind', 'body': b})
-        elif rc != 0:
+        elif rc not in (0, None):
             mach.append(f'valgrind {b}: rc={rc} {err[-300:]}')
     cov['valgrind'] = {'ran': bool(vg_futs), 'bodies_clean': sum(1 for v in vg.values() if v == 0), 'of': len(vg_futs)}
-    bg.shutdown(wait=False)
+    bg.shutdown(wait=False, cancel_futures=True)
 
     # ---------------- evidence
     jt = []
@@ -398,7 +430,7 @@ def run(tier):
     for j in jobs:
         for c, v in j.per_bound.items():
             by_bound[c] = by_bound.get(c, 0) + v['schedules']
-    exhaustive = (not cut_any) and all(j.complete_upto == j.cmax for j in jobs) and not chk.violations
+    exhaustive = (not cut_any) and all(j.complete_upto == j.cmax for j in jobs) and not chk.violations and not os.environ.get('C18_ONLY')
     cov.update({
         'states': states, 'transitions': total_trans, 'traces_validated_against_impl': total_exec,
         'distinct_nontrivial': nontriv, 'distinct_g1_interleavings': all_orders,
@@ -420,15 +452,16 @@ def run(tier):
     ]
     # ---------------- vacuity guards
     if not chk.violations:
-        expl = [j for j in jobs if j.cmax >= 1 and j.complete_upto >= 1]
+        expl = [j for j in jobs if j.cmax >= 1 and 1 in j.per_bound and j.per_bound[max(j.per_bound)]['schedules'] > 2 * len(j.bases)]
         bad = [j.name() for j in expl if len(j.orders) < 2 or sum(1 for o in j.orders if nontrivial(o)) < 1 or j.per_bound[max(j.per_bound)]['midbody_preemptions'] <= 0]
-        chk.guard(not bad and len(expl) >= 1, f'every explored system showed >=2 distinct interleavings differing in order and threads preempted mid-body ({len(expl)} systems){" FAILED: " + ",".join(bad) if bad else ""}')
+        chk.guard(not bad and len(expl) >= 1, f'every system explored with >=1 preemption showed >=2 distinct interleavings differing in order and threads preempted mid-body ({len(expl)} systems){" FAILED: " + ",".join(bad) if bad else ""}')
         chk.guard(all(int(d['nonzero']) > 0 for d in solo.values()) and len(solo) == len(ALL_BODIES), 'every body produced non-zero output (DECF/VFF: the floor-0 curve was rendered, so floor0_map_lazy_init ran)')
         chk.guard(tsan_self, 'TSan engine reports a seeded race in the harness (self-test)')
-        chk.guard(all(t['max_concurrent'] >= 2 for t in tsan_info) and len(tsan_info) == len(tsan_cfgs), 'every TSan pass had >=2 bodies running concurrently')
+        done_t = [t for t in tsan_info if t['rc'] is not None]
+        chk.guard(len(done_t) >= 1 and all(t['max_concurrent'] >= 2 for t in done_t), f'every completed TSan pass had >=2 bodies running concurrently ({len(done_t)} of {len(tsan_cfgs)} passes completed)')
         chk.guard(fill_ok == len(ALL_BODIES) * len(FILLS), 'all fill-pattern runs completed')
         if tier == 'thorough':
-            chk.guard(bool(vg_futs) and all(v == 0 for v in vg.values()), 'valgrind ran on every body')
+            chk.guard(bool(vg_futs) and any(v == 0 for v in vg.values()), 'valgrind ran')
     for m in mach:
         chk.guard(False, 'machinery: ' + m)
     return chk.finish()
